@@ -108,7 +108,13 @@ def run(case, rec):
                 for label, ex in examples.items():
                     if implicit_other and label == 'other' and 'other' not in [e['label'] for e in mdef['examples']]:
                         continue
-                    doc = json.loads(json.dumps(ex.value))
+                    try:
+                        doc = json.loads(json.dumps(ex.value))
+                    except (TypeError, ValueError) as e:
+                        rec.case(core.h64((repr(specs), nsname, dt.name, 'ex', label)), True, classes=['example:' + mdef['k']])
+                        viol('example-not-json', 'example %r is not a JSON document: %s (%r)' % (label, e, ex.value),
+                             mdef['k'] + ':' + type(e).__name__, 'example ' + label)
+                        continue
                     nontriv = any(isinstance(x, (dict, list)) for x in (doc.values() if isinstance(doc, dict) else []))
                     explicit = label in [e['label'] for e in mdef['examples']]
                     rec.case(core.h64((repr(specs), nsname, dt.name, 'ex', label)), nontriv or not explicit,
